@@ -89,6 +89,32 @@ def h_vector_delta(ctx, q):
         ctx.claim('value', ctx.eq(F[nz[0]], v))
 
 
+def h_concrete_delta_large_q(ctx):
+    """QTT delta vector / matrix beyond the quantisation levels of the symbolic
+    instances (q = 9 .. 12, positions above 255 and their negative
+    counterparts; real code): v at the position, zero elsewhere."""
+    ok = True
+    for q in (9, 10, 12):
+        N = 1 << q
+        for i in (0, 255, 256, 257, 300, N // 2 + 5, N - 1, -1, -256, -257, -N):
+            Y = teneva.vector_delta(q, i, 2.5)
+            F = teneva.full(Y).reshape(-1, order='F')
+            pos = i if i >= 0 else i + N
+            ok = ok and F[pos] == 2.5 and int(np.count_nonzero(F)) == 1
+    for q, i, j in ((9, 3, 300), (9, 256, 1), (10, -1, 513), (9, 511, -512)):
+        N = 1 << q
+        Y = teneva.matrix_delta(q, i, j, -1.5)
+        bits = lambda t: [((t if t >= 0 else t + N) >> k) & 1 for k in range(q)]
+        bi, bj = bits(i), bits(j)
+        val = 1.
+        tot = 1.
+        for k in range(q):
+            val *= Y[k][0, bi[k], bj[k], 0]
+            tot *= np.abs(Y[k]).sum()
+        ok = ok and val == -1.5 and abs(tot - 1.5) < 1e-12
+    ctx.claim('delta_at_positions_beyond_one_byte', bool(ok))
+
+
 def _is_zero(x):
     try:
         return x.const_value() == 0
@@ -230,6 +256,23 @@ def h_rand(ctx, kind, n, r, seed):
             ctx.claim('entries_are_mean_plus_deviation_times_standard_normal', ctx.all_(ok))
     elif kind == 'rand_stab':
         Y = teneva.rand_stab(n, r, 0.5, seed=seed)
+        # a recording generator object: core k is the identity pattern in every slice plus noise times
+        # the standard-normal draws made for it (symbolic noise level)
+        from harness.c14 import _gen
+        g = _gen(ctx, 'stab')
+        ns = ctx.real('ns')
+        ctx.assume(ctx.gt(ns, Fraction(1, 1024)))
+        ctx.assume(ctx.lt(ns, Fraction(1, 8)))
+        Yg = teneva.rand_stab(n, r, ns, seed=g)
+        Zl = [np.asarray(Z) for Z in getattr(g, 'zlog', [])]
+        ctx.claim('one_batch_of_draws_per_core', len(Zl) == len(Yg) and all(Z.shape == G.shape for Z, G in zip(Zl, Yg)))
+        if len(Zl) == len(Yg) and all(Z.shape == G.shape for Z, G in zip(Zl, Yg)):
+            ok = []
+            for G, Z in zip(Yg, Zl):
+                for idx in np.ndindex(*G.shape):
+                    pat = 1 if idx[0] == idx[2] else 0
+                    ok.append(ctx.eq(G[idx], pat + ns * Z[idx]) if sym else ctx.close(G[idx], pat + ns * float(Z[idx]), 1e-12))
+            ctx.claim('ones_pattern_plus_noise_times_draw', ctx.all_(ok))
     ctx.claim('well_formed', well_formed(Y, n))
     ctx.claim('rank_profile', [1] + [G.shape[2] for G in Y] == rp)
     ctx.claim('finite', finite(ctx, Y))
@@ -301,9 +344,12 @@ def instances(tier):
         # (values chosen so that float64 evaluates them exactly: constants are computed natively)
         out.append({'func': 'h_poly', 'params': {'n': [2, 2], 'power': -1, 'scalar_shift': kind, 'int_shift': [1, 1]}})
         out.append({'func': 'h_poly', 'params': {'n': [1, 1], 'power': 3, 'scalar_shift': kind, 'int_shift': [2 ** 31, -2 ** 22]}})
+    out.append({'func': 'h_concrete_delta_large_q', 'params': {}, 'opts': {'concrete_only': True}})
     for kind in ('rand', 'rand_norm', 'rand_stab'):
         # (ranks above the mode sizes / above what the unfoldings support are requested profiles like any other)
-        for n, r in [([2, 3], 2), ([2, 2, 3], [1, 2, 3, 1]), ([3, 2, 2], 1), ([2, 2, 2], 3), ([2, 3], [1, 4, 1])]:
+        # (the last one: consecutive cores with the same rank pair and a growing mode size)
+        for n, r in [([2, 3], 2), ([2, 2, 3], [1, 2, 3, 1]), ([3, 2, 2], 1), ([2, 2, 2], 3), ([2, 3], [1, 4, 1]),
+                     ([2, 2, 3, 2], 2)]:
             out.append({'func': 'h_rand', 'params': {'kind': kind, 'n': n, 'r': r, 'seed': 7}})
     return out
 
